@@ -300,6 +300,16 @@ def run(ctx):
     err = run_jobs(ctx, "sa.checks.c15", "_job", jobs, [j if isinstance(j, str) else j[0] for j in jobs])
     if err is not None:
         raise AnalysisError(err)
+    # which H the detectors are handed as time partner, in the forward and in the reverse step (the other half step on
+    # either side of the detector's E): decided by C03's step-order rule, evaluated here because the time-centring of
+    # the recorded H rests on it
+    from . import c03
+
+    n0 = len(ctx.obligations)
+    c03._step_order(ctx)
+    for o in ctx.obligations[n0:]:
+        o.rule = "R15.4"
+    ctx.require_count("R15.4 step-order obligations", len(ctx.obligations) - n0, 3)
     ctx.require_count("C15", len(ctx.obligations), 35)
     ctx.trusted_base += ["np.pad model on concrete arrays (constant / wrap)", "Yee offsets E_c at +1/2 e_c, H_c at +1/2 (1 - e_c), target (0, 0, 1/2)", "parity / on-plane oracles of C32"]
     ctx.assume("a 5x4x4 grid stands for all grids (index-generic code); detectors are active at the step")
